@@ -398,6 +398,19 @@ func runC02(c *Ctx, emit func(cs *progs.Case) progs.Obs) {
 			probe(m, progs.GenPrim(r, m), s)
 		}
 	}
+	// directed: every byte class of the generator (ASCII specials, control bytes, well-formed 2/3/4-byte
+	// runes incl. a literal U+FFFD and U+FFFE, every kind of ill-formed sequence) alone, embedded and
+	// doubled, through every text-carrying method and every entry point
+	for _, cl := range progs.ByteClasses() {
+		for _, txt := range [][]byte{cl, append(append([]byte("a"), cl...), 'z'), append(append([]byte{}, cl...), cl...)} {
+			s := progs.DefaultSettings()
+			s.LevelName = ""
+			probe("Str", progs.Prim{M: "Str", V: string(txt)}, s)
+			probe("Bytes", progs.Prim{M: "Bytes", V: append([]byte{}, txt...)}, s)
+			probe("Strs", progs.Prim{M: "Strs", V: []string{string(txt), "x", string(txt)}}, s)
+			probe("Stringer", progs.MkStringer(string(txt)), s)
+		}
+	}
 	// directed: instants on both sides of the epoch with sub-unit fractions, under every integer time format,
 	// scalar and slice; durations around zero under every unit
 	instants := []time.Time{time.Unix(0, 0), time.Unix(-1, 999500000), time.Unix(-1, 500), time.Unix(0, -1), time.Unix(0, -999999), time.Unix(-1500, 123456789),
